@@ -538,6 +538,13 @@ def bounded_windows(seed):
     return run_native("c07_windows_bounded", {"seed": seed}, timeout=1200)
 
 
+def bounded_dual(seed_base, programs):
+    def run(seed):
+        from replay.native import run_native
+        return run_native("cx_dual_bounded", {"seed": seed_base + seed, "programs": programs}, timeout=1500)
+    return run
+
+
 def harnesses():
     hs = []
     for n in (1, 2, 3, 4):
@@ -551,4 +558,7 @@ def harnesses():
     hs.append(Harness("legacy.guards", h_legacy_guards, units=[(T_PY, "TrigInfo.trigger_watch")], replay=replay_c07, max_paths=30000))
     hs.append(Harness("guard-frame", h_guard_frame, units=[(DT_PY, "TimeActiveDecorator.handle_dispatch"), (DS_PY, "StateActiveDecorator.handle_dispatch")]))
     hs.append(Harness("bounded.windows", bounded_windows, units=[(T_PY, "TrigTime.timer_active_check"), (T_PY, "TrigTime.parse_date_time")], kind="bounded"))
+    hs.append(Harness("bounded.dual-subsystems", bounded_dual(0, 100), units=[(T_PY, "TrigInfo.trigger_watch"), (D_PY, "FunctionDecoratorManager.dispatch")], kind="bounded"))
+    for k in range(1, 5):
+        hs.append(Harness(f"bounded.dual-subsystems[thorough {k}/4]", bounded_dual(0 + 10 * k, 300), units=[(T_PY, "TrigInfo.trigger_watch"), (D_PY, "FunctionDecoratorManager.dispatch")], kind="bounded", tier="thorough"))
     return hs
